@@ -60,12 +60,23 @@ class Report:
         self.decided   = ''
         self.undecided = ''
         self.assumptions = []
+        self.errors   = []      # AnalysisErrors of single rules (attempt())
+        self.partial  = False   # verdict rests on findings of the other rules
 
     # --------------------------------------------------------------------------
     def rule(self, rid, text, minimum=1):
         self.rules[rid] = text
         self.counts.setdefault(rid, [0, 0])
         self.minimum[rid] = minimum
+
+    def attempt(self, fn, *a, **kw):
+        """run one rule; a rule that cannot analyse its anchors does not hide
+        what the other rules of the property find (main._try decides)"""
+        try:
+            return fn(*a, **kw)
+        except AnalysisError as e:
+            self.errors.append(e)
+            return None
 
     def saw(self, func):
         self.analysed.add(func.where if hasattr(func, 'where') else str(func))
@@ -124,7 +135,11 @@ class Report:
         """match findings against known_findings.json, print the verdict lines,
         write evidence; returns the exit code"""
         pr = out or print
-        self.verify_minimums()
+        if not self.partial:
+            self.verify_minimums()
+        for e in self.errors:
+            pr('NOTE: a rule of %s could not be analysed on this tree: %s'
+               % (self.prop, str(e)[:300]))
         known = load_known()
         kf = [k for k in known.get('known', []) if k['property'] == self.prop]
         n_known, viol = 0, []
